@@ -47,6 +47,18 @@ def generate(rng, tier, boost):
     for k in range(1500 if big else 150):
         t = W.rand_tx(rng, nin=rng.choice([1, 1, 2, 3]), nout=rng.choice([0, 1, 2]))
         cases.append((201, [t, alt_witness(rng, t)]))
+    # coinbase-shaped transactions (single input, null outpoint) with and without a witness stack
+    for k in range(40 if big else 8):
+        t = W.rand_tx(rng, nin=1, nout=rng.choice([1, 2]), witness='all' if k % 2 == 0 else 'none')
+        t[1][0][0], t[1][0][1] = b'\x00' * 32, 0xffffffff
+        cases.append((201, [t, alt_witness(rng, t)]))
+    # witness present on some inputs only, the LAST input without (trailing empty stacks are part of the encoding)
+    for k in range(40 if big else 8):
+        t = W.rand_tx(rng, nin=rng.choice([2, 3]), nout=1, witness='all')
+        t[3][-1] = []
+        if len(t[3]) == 3 and k % 2:
+            t[3][0] = []
+        cases.append((201, [t, alt_witness(rng, t)]))
     # transactions without inputs (legal objects; their identifiers are defined like any other's)
     for k in range(60 if big else 12):
         t = W.rand_tx(rng, nin=0, nout=rng.choice([0, 1, 2, 3]), witness='none')
